@@ -13,6 +13,8 @@ Model driver for C19. Line protocol (fields separated by one space; strings are 
   provhttp <remote> <toks>                     the same, observed in the request rpc.Conn sends
   fednew <remote> <toks>                       the rpc.Conn federation.New wires up for the remote
                                                (local backend unreachable: every lookup fails)
+  provseq <remote;…> <toks>                    providers of several remotes, one request context
+  provhttpseq <remote;…> <toks>                the same through one rpc.Conn per remote
   provnc <remote>                              saltedTokenProvider, no credentials in the context
   keep <remote> <tok>                          remoteProxy.remoteClient
   keepget <remote> <tok>                       remoteProxy.Get with a +R<remote>- hint
@@ -239,6 +241,18 @@ def step (line : String) : String :=
         match keepGet hmacSha1 t rm with
         | .refused st => s!"refused {st}"
         | .requests a => "sent " ++ hex a
+      | _, _ => "bad-op"
+    else if op == "provseq" || op == "provhttpseq" then
+      -- <remote;remote;…> <toks>: the providers of several remotes asked in sequence with ONE
+      -- request context; last part of the answer: the credentials still in that context
+      match (rm.splitOn ";").mapM unhexC, parseToks ts with
+      | some rms, some ts =>
+        let lookup := fun (t : Str) =>
+          match ts.find? (fun p => p.1 == t) with
+          | some p => p.2
+          | none => Lookup.error 401
+        let outs := provSeq hmacSha1 lookup (some (ts.map (·.1))) rms
+        "|".intercalate (outs.map (fun o => showProv (op == "provhttpseq") o)) ++ "|ctx=same"
       | _, _ => "bad-op"
     else "bad-op"
   | ["keepseq", steps] =>
